@@ -300,6 +300,9 @@ package jet
 //@ func indexArg
 //@   props C10 C07 C06 C12 C17
 //@   ensures [index-is-in-range-or-an-error] result1 == nil ==> 0 <= result0 && result0 < cap
+//@   ensures [a-signed-integer-index-is-used-as-it-is] {C06} result1 == nil && KInt(RvKind(index)) ==> result0 == RvInt(index)
+//@   ensures [an-unsigned-integer-index-is-used-as-it-is] {C06} result1 == nil && KUint(RvKind(index)) ==> result0 == RvUint(index)
+//@   ensures [an-integer-index-in-range-is-accepted] {C06} (KInt(RvKind(index)) && 0 <= RvInt(index) && RvInt(index) < cap) || (KUint(RvKind(index)) && RvUint(index) < cap) ==> result1 == nil
 //@ func buildCache
 //@   props C10 C06 C12
 //@   requires cache != nil && typ != nil
@@ -320,6 +323,7 @@ package jet
 //@   check [a-value-method-of-a-nil-pointer-is-an-error-not-a-callable] {C12,C06} result1 == nil && RvValid(result0) && result0 == lastret("(reflect.Value).MethodByName", 0) && lastret("indirect", 1) && RvKind(lastret("indirect", 0)) == 22 ==> !lastret("(reflect.Type).MethodByName", 1)
 //@   callsite (reflect.Type).MethodByName 0 requires [the-value-type-is-asked-for-the-same-method-name] {C12,C06} t == TElem(RvTypeOf(lastret("indirect", 0))) && name == indexAsStr
 //@   callsite (reflect.Value).MethodByName 0 requires [methods-are-looked-up-under-the-index-name] {C06} name == indexAsStr
+//@   callsite (reflect.Value).Kind 5 requires [a-named-member-is-first-looked-up-as-a-method] {C06} caller.indexIsStr ==> ncalls("(reflect.Value).MethodByName") == 1
 //@   callsite buildCache 0 requires [the-cache-is-built-for-the-values-type] {C06} typ == lastret("(reflect.Value).Type", 0) && fresh(cache) && len(parent) == 0
 //@ func fieldByIndex
 //@   props C06 C12 C10 C11 C17
